@@ -84,6 +84,16 @@ def rand_scene(rng, size='tiny', name=''):
     out = {'family': 'R-' + size, 'name': name, 'rows': rows, 'prms': prms, 'indomain': True}
     if rng.random() < 0.3:
         out['index'] = rng.choice(['perceilo', 'perceilo', 'const', 'shuffled', 'offset', 'str', 'float'])
+    if rng.random() < 0.12:
+        # the parameters come through the global dictionary (no per-call dictionary at all), and the global dictionary is
+        # edited once the chunk exists: the chunk must keep working with the values it was constructed with
+        out['gprms'] = out['prms']
+        out['prms'] = {}
+        base = out['gprms']
+        out['gedit'] = {'MAX_HITS_OKTA0': base.get('MAX_HITS_OKTA0', 3) + 7, 'MAX_HOLES_OKTA8': base.get('MAX_HOLES_OKTA8', 1) + 6,
+                        'MSA': None if base.get('MSA') is not None else 700, 'MSA_HIT_BUFFER': 0,
+                        'BASE_LVL_HEIGHT_PERC': 100 - base.get('BASE_LVL_HEIGHT_PERC', 5), 'BASE_LVL_LOOKBACK_PERC': 20,
+                        'MIN_SEP_VALS': [5000], 'MIN_SEP_LIMS': [], 'EXCLUDE_FOR_BASE_HEIGHT_CALC': ['a', '1', 'ceilo_A']}
     return out
 
 
@@ -135,3 +145,35 @@ def anomaly_scene(rng, name=''):
 
 def anomaly_scenes(seed, n, tag='A'):
     return [anomaly_scene(random.Random(f'{tag}:{seed}:{i}'), name=f'{tag}-anomaly-{seed}-{i}') for i in range(n)]
+
+
+def crossing_scene(rng, name=''):
+    """ two clouds separated in time whose base order and mean order disagree: a flat deck, then (after a gap without
+    detection) a climbing layer starting below the deck and ending above it with most of its hits near the top """
+    nce = rng.choice([1, 2, 4])
+    ceilos = ['a', 'b', 'c', 'd'][:nce]
+    H = rng.choice([1500, 2000, 4000])
+    n1, gap, n2 = rng.randint(10, 20), rng.randint(18, 26), rng.randint(25, 40)
+    nt = n1 + gap + n2
+    lo, hi = H - rng.choice([300, 400]), H + rng.choice([500, 700])
+    cov1, cov2, expo = rng.choice([0.5, 0.9]), rng.choice([0.6, 0.85]), rng.choice([0.4, 0.5, 0.6])
+    rows = []
+    for c in ceilos:
+        for t in range(nt):
+            dt = -DT * (nt - 1 - t)
+            if t < n1:
+                rows.append([c, dt, H, 1]) if rng.random() < cov1 else rows.append([c, dt, None, 0])
+            elif t < n1 + gap:
+                rows.append([c, dt, None, 0])
+            else:
+                frac = (t - n1 - gap) / max(1, n2 - 1)
+                h = int(lo + (hi - lo) * frac ** expo)                  # a continuous climb, fast at first: most hits end up near the top
+                rows.append([c, dt, h, 1]) if rng.random() < cov2 else rows.append([c, dt, None, 0])
+    prms = {'MAX_HITS_OKTA0': rng.choice([0, 1]), 'MAX_HOLES_OKTA8': 0}
+    if rng.random() < 0.4:
+        prms['MSA'] = H + rng.choice([100, 2000])
+    return {'family': 'R-crossing', 'name': name, 'rows': rows, 'prms': prms, 'indomain': True}
+
+
+def crossing_scenes(seed, n, tag='X'):
+    return [crossing_scene(random.Random(f'{tag}:{seed}:{i}'), name=f'{tag}-crossing-{seed}-{i}') for i in range(n)]
